@@ -76,6 +76,8 @@ class Index:
                         break
                 d = {"pos": e["pos"], "op": e["op"], "inv": e["i"], "s0": b["s"] if b else e["s"], "s1": e["s"],
                      "how": k[5:], "t": e["t"]}
+                if b is not None and b.get("ref") is not None:
+                    d["ref"] = b["ref"]  # cbresult: position of the statement that created the callback
                 if k == "call-ret":
                     d["v"] = e["v"]
                 else:
@@ -339,8 +341,8 @@ def check_c03(ix, prop="C03"):
                     continue
                 if op == "wfcond" and d["cls"] in ("ExecutionError", "ValidationError"):
                     continue
-            if op in ("callback",):
-                oid = ix.pos_id(pos)
+            if op in ("callback", "cbresult"):
+                oid = ix.pos_id(pos if op == "callback" else d.get("ref"))
                 if oid is None:
                     if d["how"] == "ret":
                         out.append(V(prop, "outcome-before-record", f"{pos}: callback result delivered but the backend "
@@ -393,7 +395,7 @@ def _parking(ix, inv, r, prop):
     aborts = []
     for pos, ds in ix.deliveries.items():
         for d in ds:
-            if d["inv"] == inv and d["how"] == "abort" and d["cls"] in SUSPEND and d["op"] in (LEAF_OPS | {"wfc"}) and not d.get("inner"):
+            if d["inv"] == inv and d["how"] == "abort" and d["cls"] in SUSPEND and d["op"] in (LEAF_OPS | {"wfc", "cbresult"}) and not d.get("inner"):
                 # a branch of a map/parallel that has already returned is an orphan: its result is final without it
                 if any(_is_under(pos, p) and ix.deliveries[p][0]["op"] in ("parallel", "map") for p in done):
                     continue
@@ -410,6 +412,8 @@ def _parking(ix, inv, r, prop):
         names = [pos]
         if op == "wfc":
             names = [pos + " create callback id", pos + " submitter"]
+        elif op == "cbresult":
+            names = [d.get("ref")]
         ok = False
         seen = []
         for nm in names:
@@ -459,6 +463,15 @@ def expected_for_error(err, opname):
     return "raise" if ERROR_CLASSES[err][3] else "FAILED"
 
 
+def _failed_after_user_code_ended(ix, inv, f):
+    """The failing call was still flushing fire-and-forget records (context / at-least-once step START) when the handler had
+    already returned or suspended: every record anything depended on had been awaited, no durable call can observe the
+    failure any more, and the lost records are sent again by the next invocation. The property speaks of what happens AFTER
+    a failure; the handler's outcome was decided before it."""
+    done = [e for e in ix.kinds["handler-done"] if e["i"] == inv]
+    return bool(done) and done[-1]["s"] < f["s"]
+
+
 def check_c06(ix, amo_positions=()):
     out = []
     w = ix.w
@@ -487,6 +500,9 @@ def check_c06(ix, amo_positions=()):
             if n_upd == 0 and opname == "checkpoint":
                 w.hit("c06-open-corner-empty-checkpoint")
                 continue
+            if _failed_after_user_code_ended(ix, inv, f):
+                w.hit("c06-failure-after-user-code-ended")
+                continue
             out.append(V("C06", "success-after-failure", f"invocation {inv} returned {oc} although API call {f['call']} ({opname}) failed "
                          f"with {f['err']}", seq=f["s"]))
         elif oc == "raise" and exp == "FAILED":
@@ -494,6 +510,26 @@ def check_c06(ix, amo_positions=()):
                          seq=f["s"]))
         elif oc == "FAILED" and exp == "raise" and not _failed_on_its_own(ix, inv, info):
             out.append(V("C06", "misclassified-failed", f"invocation {inv} returned FAILED for retriable error {f['err']}", seq=f["s"]))
+    # "every caller ... subsequently issuing a checkpoint is woken with the failure": under line tracing the simulator reports
+    # the entry and exit of ExecutionState._enqueue and of CompletionEvent.set. Once the first set(error) of an invocation has
+    # RETURNED the failure flag is up; an _enqueue that is entered after that and returns normally accepted a checkpoint
+    # (blocking or not) that must have been refused.
+    for info in w.invocations:
+        inv = info["n"]
+        flag = next((e["s"] for e in ix.kinds["sdk-ret"] if e["i"] == inv and e["fn"] == "set"
+                     and any(c["i"] == inv and c["fn"] == "set" and c["arg"] is True and c["t"] == e["t"] and c["s"] < e["s"]
+                             for c in ix.kinds["sdk-call"])), None)
+        if flag is None:
+            continue
+        for c in ix.kinds["sdk-call"]:
+            if c["i"] != inv or c["fn"] != "_enqueue" or c["s"] < flag:
+                continue
+            r_ = next((e for e in ix.kinds["sdk-ret"] if e["i"] == inv and e["fn"] == "_enqueue" and e["t"] == c["t"] and e["s"] > c["s"]), None)
+            if r_ is not None and not r_["arg"]["raised"]:
+                out.append(V("C06", "checkpoint-accepted-after-failure", f"invocation {inv}: a {'blocking' if c['arg']['sync'] else 'non-blocking'} "
+                             f"checkpoint of operation {str(c['arg']['op'])[:8]} was accepted (seq {c['s']}) after the checkpoint failure had "
+                             f"been published (seq {flag})", seq=c["s"]))
+                break
     first_fail = {}
     for e in ix.kinds["api-end"]:
         if not e.get("ok") and e.get("err") in ERROR_CLASSES and e["i"] not in first_fail:
@@ -1041,6 +1077,14 @@ def check_c14(ix, cfg):
         elif op == "wfc":
             for d in ix.deliveries.get(pos, []):
                 out.extend(_cb_outcome(ix, w, pos, pos + " create callback id", d, wrapped=False))
+        elif op == "cbdefer":
+            for d in ix.deliveries.get(pos, []):
+                if d["how"] == "raise":
+                    out.append(V("C14", "create-callback-raised", f"{pos}: create_callback raised {d['cls']}: {d['msg']}", pos=pos, seq=d["s1"]))
+        elif op == "cbresult":
+            for d in ix.deliveries.get(pos, []):
+                if d.get("ref"):
+                    out.extend(_cb_outcome(ix, w, pos, d["ref"], d, wrapped=True, extract=False))
         elif op == "invoke":
             oid = ix.pos_id(pos)
             starts = [a for a in ix.kinds["applied"] if a.get("name") == pos and a["type"] == "CHAINED_INVOKE" and a["action"] == "START"]
@@ -1084,14 +1128,14 @@ def check_c14(ix, cfg):
     return out
 
 
-def _cb_outcome(ix, w, pos, cbname, d, wrapped):
+def _cb_outcome(ix, w, pos, cbname, d, wrapped, extract=True):
     out = []
     oid = ix.pos_id(cbname)
     sc = w.backend.ext_script(cbname)
     st_be = ix.status_at(oid, d["s1"]) if oid else None
     if d["how"] == "ret":
         v = d["v"]
-        if wrapped:
+        if wrapped and extract:
             # op_callback returns [callback_id, between, result]; canon -> ["list", [id, between, result]]
             try:
                 v = v[1][2]
@@ -1237,12 +1281,11 @@ def check_c17(ix, cfg):
             if e["k"] != "log-call":
                 continue
             pos = e["pos"]
-            if _under_branch(pos) and (first or _concurrent_done(ix, pos, done, parent)):
-                # program order is undefined between sibling branches: a log call in a branch is judged only if no
-                # operation that had completed lies in a sibling branch of any enclosing map/parallel (then every completed
-                # operation is ordered with respect to the call: before the map/parallel, in this branch, or after it)
-                if not first:
-                    continue
+            # program order is undefined between sibling branches: that a log call in a branch must be EMITTED is judged only
+            # if no operation that had completed lies in a sibling branch of any enclosing map/parallel (then every completed
+            # operation is ordered with respect to the call: before the map/parallel, in this branch, or after it). That it
+            # must be SILENT because an operation completed earlier follows it in its own program order is always judged.
+            only_silence = _under_branch(pos) and not first and _concurrent_done(ix, pos, done, parent)
             nxt = None
             for m in range(n + 1, min(len(trace), n + 400)):
                 if trace[m]["t"] == e["t"] and trace[m]["i"] == inv:
@@ -1279,7 +1322,7 @@ def check_c17(ix, cfg):
                         cls_ = "logged-again-after-in-process-resubmission"
                 out.append(V("C17", cls_, f"invocation {inv}: log call at {pos} precedes an operation already complete in "
                              f"the history but was emitted", pos=pos, seq=e["s"]))
-            elif not silent_expected and not emitted:
+            elif not silent_expected and not emitted and not only_silence:
                 cls_ = "silent-after-replay"
                 if inv == 1:
                     cls_ = "silent-in-first-invocation"
@@ -1423,7 +1466,7 @@ def check_c18(ix, cfg):
             opname = b["op"] if b else "checkpoint"
             exp = expected_for_error(f["err"], opname)
             if oc in ("SUCCEEDED", "PENDING"):
-                if not (b and b["n"] == 0 and opname == "checkpoint"):
+                if not (b and b["n"] == 0 and opname == "checkpoint") and not _failed_after_user_code_ended(ix, inv, f):
                     out.append(V("C18", "wrong-classification", f"invocation {inv} returned {oc} although API call {f['call']} ({opname}) "
                                  f"failed with {f['err']} (expected {exp})", seq=f["s"]))
             elif oc == "FAILED" and exp == "raise" and not _failed_on_its_own(ix, inv, info):
